@@ -1496,17 +1496,17 @@ def _get_resources_by_hrefs(
       hrefs: List of hrefs to resolve
     Returns: iterator over (href, resource) tuples
     """
-    paths: dict[str, str] = {}
-    for href in hrefs:
+    paths: dict[str, list[str]] = {}
+    for href in dict.fromkeys(hrefs):
         path = href_to_path(environ, href)
         if path is not None:
-            paths[path] = href
+            paths.setdefault(path, []).append(href)
         else:
             yield (href, None)
 
     for relpath, resource in backend.get_resources(paths):
-        href = paths[relpath]
-        yield (href, resource)
+        for href in paths[relpath]:
+            yield (href, resource)
 
 
 def _send_xml_response(status, et, out_encoding):
